@@ -320,12 +320,6 @@ def render(model, lay):
     return decorate(lines, lay)
 
 
-def render_info(model, lay):
-    """(text, {part: 0-based line index in the comment})"""
-    lines, where = content_lines(model, lay)
-    return decorate(lines, lay), dict((k, v + 1) for k, v in where.items())
-
-
 # --------------------------------------------------------------------------------------
 # Expected abstract view of a model
 # --------------------------------------------------------------------------------------
@@ -838,13 +832,6 @@ def corpus():
 
 SEMANTIC_MSG = re.compile(r'(unknown annotation|unexpected annotation|annotation (needs|takes)|invalid "[^"]*" annotation '
                           r'option|annotation option "[^"]*" needs a value|cannot have both)')
-
-
-def is_deprecated_tag_line(line):
-    """Source line written in the deprecated tag-style annotation syntax (carve-out of C11)."""
-    m = re.match(r'^\s*\*?\s?(.*)$', line)
-    body = re.sub(r'^\s*\*\s?', '', line)
-    return bool(_OLD_ANN_TAG_RE.match(body)) or bool(m and _OLD_ANN_TAG_RE.match(m.group(1)))
 
 
 def split_lines(text):
